@@ -841,17 +841,33 @@ def collect_as_lists(
     Returns:
         Dict mapping renamed output names to lists of values
     """
-    collected: dict[str, list] = {name: [] for name in node.outputs}
+    # Ordering signals are never values: an un-mapped nested graph does not
+    # return them, a mapped one does not return lists of placeholders for them
+    signals = _signal_only_outputs(node)
+    names = [name for name in node.outputs if name not in signals]
+    collected: dict[str, list] = {name: [] for name in names}
     for result in results:
         if result.status == RunStatus.FAILED:
             if error_handling == "raise":
                 raise result.error  # type: ignore[misc]
             # Continue mode: use None placeholders to preserve list length
-            for name in node.outputs:
+            for name in names:
                 collected[name].append(None)
             continue
         # Translate original output names to renamed names
         renamed_values = node.map_outputs_from_original(result.values)
-        for name in node.outputs:
+        for name in names:
             collected[name].append(renamed_values.get(name))
     return collected
+
+
+def _signal_only_outputs(node: GraphNode) -> set[str]:
+    """Outputs of a nested-graph node that are emit signals only, under the node's current names."""
+    data: set[str] = set()
+    for inner in node.graph.iter_nodes():
+        if inner.nested_graph is not None:
+            data.update(set(inner.outputs) - _signal_only_outputs(inner))  # type: ignore[arg-type]
+        else:
+            data.update(inner.data_outputs)
+    originals = [name for name in node.graph.outputs if name not in data]
+    return set(node.map_outputs_from_original(dict.fromkeys(originals)))
